@@ -163,8 +163,10 @@ func (h *killedHandler) handleRestart() {
 	} else {
 		h.ctx.restarting = nil
 		atomic.StoreInt32(&h.ctx.state, running)
-		h.ctx.tell(true, h.ctx.parent, new(vivid.OnLaunch))
 		h.ctx.mailbox.Resume()
+		// OnLaunch 属于被重启的 Actor 自身（而非其父级），并且必须是新实例看到的第一条消息：
+		// 此处正处于该 Actor 自己的消息处理协程中，直接同步投递，避免重启期间已入队的系统消息（如 OnKill）抢先。
+		h.ctx.HandleEnvelop(mailbox.NewEnvelop(true, h.ctx.ref, h.ctx.ref, new(vivid.OnLaunch)))
 
 		// 通知事件流
 		eventStream := h.ctx.EventStream()
